@@ -129,3 +129,40 @@ def compile_set(texts, requested, codegen='json', dialect='smiV2', stubs=BASE_NA
     comp.addSearchers(StubSearcher(*stubs))
     res = comp.compile(*requested, **options)
     return res, dict((n, d) for n, d, _ in writer.written)
+
+
+# --------------------------------------------------------------------------- speed: template cache
+
+class _JinjaProxy(object):
+    """Stands in for the name `jinja2` inside pysmi.codegen.{pysnmp,jsondoc}: Environment objects are cached
+    per constructor arguments, so the (unchanged) template files are compiled once per process instead of
+    once per genCode() call.  Rendering, filters and error types are the real ones."""
+
+    def __init__(self, real):
+        self._real = real
+        self._envs = {}
+        self.exceptions = real.exceptions
+        self.FileSystemLoader = real.FileSystemLoader
+
+    def __getattr__(self, name):
+        return getattr(self._real, name)
+
+    def Environment(self, loader=None, **kw):
+        sp = getattr(loader, 'searchpath', None)
+        key = (tuple(sp) if sp is not None else id(loader), tuple(sorted(kw.items())))
+        if key not in self._envs:
+            self._envs[key] = self._real.Environment(loader=loader, **kw)
+        return self._envs[key]
+
+
+def fast_jinja():
+    import jinja2
+    import pysmi.codegen.pysnmp as m1
+    import pysmi.codegen.jsondoc as m2
+    for m in (m1, m2):
+        if not isinstance(m.jinja2, _JinjaProxy):
+            m.jinja2 = _JinjaProxy(jinja2)
+
+
+if not os.environ.get('MC_SLOW_JINJA'):
+    fast_jinja()
